@@ -6,6 +6,10 @@ Streams
   hashcoll : ALL pairs of a small universe of values (every atom of the generators; one-level composites over the
           atoms involved in the systematic zero-hash collision): hash(a) == hash(b) vs `Ty.hashEq`, a == b vs `Ty.beq`
   spec  : Lean `mem` vs the Python reference on the witness objects
+  tv    : (implementation only, harness/props/c14x.py) a type variable planted in every child position of every Value class
+          (table regenerated from the tree and pinned by Lean obligations), under every kind of container: pyanalyze's own
+          traversal (walk_values / extract_typevars) against a structural occurrence oracle, and the substitution clauses
+          (every occurrence replaced, equal to the value written directly, identity on closed values, commutes with uniting)
   (eq / hash / hashcoll skip pairs in the model's class `seqArgs`, see ASSUMPTIONS)
 Property search on the implementation (fresh Value objects for every operand occurrence):
   idempotent / commutative / associative up to ==, no nested unions, Never is the identity, the union accepts each
@@ -15,12 +19,14 @@ Property search on the implementation (fresh Value objects for every operand occ
 import json
 
 from harness.common import lean, pya, values as V, gen_values as G
-from harness.props.c03 import subterms, totuple, property_silent, translate  # noqa: F401
+from harness.props.c03 import subterms, totuple, property_silent, translate as translate_class_table
 from harness.props.c04 import mutate_ty
+from harness.props import c14x
 
 PROP = "C14"
 LEAN_PROP = "PyaModel.Props.C14"
-LEAN_TARGETS = ["PyaModel.Core.Sexp", "PyaModel.Spec.Mem", "PyaModel.Generated.ClassTable", "PyaModel.Spec.D14", "PyaModel.Core.Union"]
+LEAN_TARGETS = ["PyaModel.Core.Sexp", "PyaModel.Spec.Mem", "PyaModel.Generated.ClassTable", "PyaModel.Spec.D14", "PyaModel.Core.Union",
+                "PyaModel.Spec.ValueChildren", "PyaModel.Generated.ValueChildren"]
 ANCHORS = [
     ("pyanalyze/value.py", "unite_values"),
     ("pyanalyze/value.py", "flatten_values"),
@@ -33,7 +39,18 @@ ANCHORS = [
     ("pyanalyze/value.py", "GenericValue.substitute_typevars"),
     ("pyanalyze/value.py", "SequenceValue.substitute_typevars"),
     ("pyanalyze/value.py", "TypeVarValue.substitute_typevars"),
+    ("pyanalyze/value.py", "TypedDictValue.substitute_typevars"),
+    ("pyanalyze/value.py", "TypedDictValue.walk_values"),
+    ("pyanalyze/value.py", "CallableValue.substitute_typevars"),
+    ("pyanalyze/value.py", "extract_typevars"),
+    ("pyanalyze/signature.py", "Signature.substitute_typevars"),
+    ("pyanalyze/signature.py", "Signature.__hash__"),
 ]
+
+
+def translate(ctx):
+    translate_class_table(ctx)
+    c14x.translate(ctx)
 RULE = (
     "triples (a, b, c) of seeded random value terms (literals incl. unhashable lists/sets/dicts, classes, generics, sequence "
     "forms, nested unions, annotated, type[...], NewType, Any); b and c are drawn near a (copy, reordering of a union, mutation) "
@@ -46,7 +63,7 @@ ASSUMPTIONS = [
     "object identity is invisible to the model, the harness builds a fresh Value for every operand occurrence",
     "SequenceValue's dataclass hash and == also cover the derived field args = unite_values(members); the model compares the members only. The two differ only when one sequence form has two flattened members (possibly the same one: an unhashable literal) that are hash-equal but not == (tuple[int, Literal[0]]) or == but not hash-equal (tuple[[1], int], tuple[list[int | str], list[str | int]]): the model's decidable class `seqArgs` (Spec/D14.lean Ty.seqArgsIrregular); pairs in that class are skipped (counted as `seqargs_skipped`) by the eq / hash / hashcoll comparisons, the unite stream still covers them",
     "IntEnum members inside container literals ((IE.X,) == (1,) in Python, hash-equal too) are outside the object model (Obj.pyEq keeps instances apart from ints): the hashcoll universe holds no IntEnum member inside a container",
-    "TypeVarValue / TypedDict / Callable / dict-incomplete values are outside the Lean term language: the substitution laws and the laws on those constructors are searched on the implementation only",
+    "TypeVarValue / TypedDict / Callable / dict-incomplete / type-guard values are outside the Lean term language (new constructors of `Ty` would touch the kernels of every other property): the substitution laws and the laws on those constructors are searched on the implementation only (`ext`, `tv`); the `tv` stream's occurrence oracle is a structural walk over the dataclass fields registered as child positions (Spec/ValueChildren.lean; fields with compare=False, default values, callbacks and derived fields are not type positions), its coverage of the Value classes is pinned by the obligations value_children_registered / registered_children_live / harness_registry_pinned / planted_children_have_planters",
 ]
 TRUSTED = ["Spec/Mem.lean validated against the CPython-isinstance reference (stream spec)"]
 
@@ -362,7 +379,8 @@ def ext_pairs(rng, n):
     leaf = [TypedValue(int), TypedValue(str), KnownValue(1), TypedValue(float), KnownValue(None)]
     out = []
     for _ in range(n):
-        kind = rng.choice(["typeddict", "typeddict", "typeddict", "dictinc", "callable", "subclass_exact"])
+        kind = rng.choice(["typeddict", "typeddict", "typeddict", "dictinc", "callable", "callable_impl", "subclass_exact"])
+        cls = None
         if kind == "typeddict":
             keys = rng.sample(["a", "b", "c", "d"], rng.choice([2, 2, 3, 4]))
             spec = {k: (rng.choice(leaf), rng.random() < 0.7, rng.random() < 0.2) for k in keys}
@@ -385,6 +403,19 @@ def ext_pairs(rng, n):
             pt, rt = rng.choice(leaf), rng.choice(leaf)
             base = (lambda: CallableValue(Signature.make([SigParameter("x", ParameterKind.POSITIONAL_ONLY, annotation=pt)], rt)),) * 2
             desc = "CallableValue (%s) -> %s" % (pt, rt)
+        elif kind == "callable_impl":
+            # the same signature attached to two different callables / impl functions: Signature.__eq__ ignores them
+            # (compare=False), the hand-written Signature.__hash__ includes them
+            pt, rt = rng.choice(leaf), rng.choice(leaf)
+            how = rng.choice(["callable", "impl"])
+            objs = (_sig_fn_a, _sig_fn_b)
+
+            def mkc(o, pt=pt, rt=rt, how=how):
+                return CallableValue(Signature.make([SigParameter("x", ParameterKind.POSITIONAL_ONLY, annotation=pt)], rt,
+                                                    **{how: o}))
+            base = (lambda mkc=mkc, objs=objs: mkc(objs[0]), lambda mkc=mkc, objs=objs: mkc(objs[1]))
+            desc = "CallableValue (%s) -> %s with different %s" % (pt, rt, how)
+            cls = "callableHashImpl"
         else:
             base = (lambda: SubclassValue(TypedValue(int), exactly=True),) * 2
             desc = "type[int] exactly"
@@ -397,20 +428,28 @@ def ext_pairs(rng, n):
             "tuple": lambda v: SequenceValue(tuple, [(False, TypedValue(int)), (False, v)]),
             "dictval": lambda v: GenericValue(dict, [TypedValue(str), v]),
         }[wrap]
-        out.append((desc + " in " + wrap, (lambda base=base, w=w: w(base[0]())), (lambda base=base, w=w: w(base[1]()))))
+        out.append((desc + " in " + wrap, (lambda base=base, w=w: w(base[0]())), (lambda base=base, w=w: w(base[1]())), cls))
     return out
+
+
+def _sig_fn_a(x):
+    return x
+
+
+def _sig_fn_b(x):
+    return x
 
 
 def ext_stream(ctx):
     from pyanalyze.value import CanAssignError, MultiValuedValue, unite_values
     checker = pya.make_checker()
-    for desc, fa, fb in ext_pairs(ctx.rng, ctx.n(400, 4000)):
+    for desc, fa, fb, cls in ext_pairs(ctx.rng, ctx.n(400, 4000)):
         ctx.count(1, ext=1)
         ctx.nontriv("ext|" + desc)
         case = {"ext": desc}
 
-        def cand(what, law):
-            ctx.candidate(dict(case, law=law), what, cls=None, conforms=True, stream="law-" + law)
+        def cand(what, law, cls=cls):
+            ctx.candidate(dict(case, law=law), what, cls=cls, conforms=True, stream="law-" + law)
 
         try:
             a, b = fa(), fb()
@@ -571,11 +610,13 @@ def run(ctx):
     evaluate(ctx, corpus() + gen_triples(ctx) + gen_big_triples(ctx))
     hashcoll_stream(ctx)
     ext_stream(ctx)
+    c14x.tv_stream(ctx)
 
 
 def run_impl_only(ctx):
     evaluate(ctx, corpus() + gen_triples(ctx) + gen_big_triples(ctx), with_model=False)
     ext_stream(ctx)
+    c14x.tv_stream(ctx)
 
 
 def replay(ctx, data):
@@ -590,5 +631,9 @@ def replay(ctx, data):
         evaluate(ctx, triples)
     if any(c.get("stream") == "hashcoll" for c in cases):
         hashcoll_stream(ctx)
+    if any("tv" in c for c in cases):
+        c14x.tv_stream(ctx, only={c["tv"] for c in cases if "tv" in c})
+    if any("ext" in c for c in cases):
+        ext_stream(ctx)
     print(json.dumps({"candidates": ctx.candidates[:3], "broken": ctx.broken[:3]}, indent=1, default=str))
     return 1 if (ctx.candidates or ctx.broken) else 0
